@@ -107,15 +107,18 @@ class PythonFragment(PythonCode):
     """
 
     def __init__(self, code, **exception_kwargs):
-        m = re.match(r"^(\w+)(?:\s+(.*?))?:\s*(#|$)", code.strip(), re.S)
+        m = re.match(r"^(\w+)\s*(.*?):\s*(#|$)", code.strip(), re.S)
         if not m:
             raise exceptions.CompileException(
                 "Fragment '%s' is not a partial control statement" % code,
                 **exception_kwargs,
             )
-        if m.group(3):
-            code = code[: m.start(3)]
         keyword, expr = m.group(1, 2)
+
+        # the body that completes the statement goes on a line of its own,
+        # so that a comment after the colon stays a comment and a "#" within
+        # a string of the header is not taken for one
+        body = "\n pass"
 
         # a statement that is only valid as a continuation is completed by
         # a line placed before it; the line the fragment is on is that many
@@ -123,17 +126,17 @@ class PythonFragment(PythonCode):
         lineno_offset = 0
 
         if keyword in ["for", "if", "while"]:
-            code = code + "pass"
+            code = code + body
         elif keyword == "try":
-            code = code + "pass\nexcept:pass"
+            code = code + body + "\nexcept:pass"
         elif keyword in ["elif", "else"]:
-            code = "if False:pass\n" + code + "pass"
+            code = "if False:pass\n" + code + body
             lineno_offset = -1
         elif keyword == "except":
-            code = "try:pass\n" + code + "pass"
+            code = "try:pass\n" + code + body
             lineno_offset = -1
         elif keyword == "with":
-            code = code + "pass"
+            code = code + body
         else:
             raise exceptions.CompileException(
                 "Unsupported control keyword: '%s'" % keyword,
